@@ -224,8 +224,7 @@ fn pred_children(e: &Expr) -> Vec<&Expr> {
 ///  * IN list containing NULL                                             KF-C14-03
 ///  * NOT IN / NOT BETWEEN / NOT LIKE                                     KF-C14-04 (UNKNOWN negated to TRUE)
 ///  * IS [NOT] NULL applied to a predicate                                KF-C14-05
-///  * AND chain whose first `col = literal` conjunct is on an indexed column and that has another
-///    =,<,<=,>,>= / BETWEEN conjunct mentioning that column            KF-C14-06 (residual filter dropped)
+///  (KF-C14-06, conjuncts dropped next to an index probe, is fixed in /repo by 17280f3: no longer excluded)
 ///  * indexed INT column = REAL literal                                   KF-C14-07 (index probe with a float key)
 /// (the select-list defect KF-C14-08 — UNKNOWN shown as FALSE — touches every operator; there the
 ///  per-row blame keeps the remaining rows under test)
@@ -240,15 +239,6 @@ fn known_broken(e: &Expr, tb: usize) -> bool {
     fn indexed(name: &str, tb: usize) -> bool {
         let k = col_kind(name, tb);
         k.ends_with("_pkcol") || k.ends_with("_ixcol")
-    }
-    fn conjuncts<'a>(e: &'a Expr, out: &mut Vec<&'a Expr>) {
-        match e {
-            Expr::And(a, b) => {
-                conjuncts(a, out);
-                conjuncts(b, out);
-            }
-            o => out.push(o),
-        }
     }
     fn eq_col_lit(e: &Expr) -> Option<(&str, &Expr)> {
         match e {
@@ -273,20 +263,6 @@ fn known_broken(e: &Expr, tb: usize) -> bool {
         Expr::And(a, b) => {
             if known_broken(a, tb) || known_broken(b, tb) {
                 return true;
-            }
-            let mut cs = vec![];
-            conjuncts(e, &mut cs);
-            if let Some((pos, (icol, _))) = cs.iter().enumerate().find_map(|(i, c)| eq_col_lit(c).map(|x| (i, x))) {
-                if indexed(icol, tb) {
-                    return cs.iter().enumerate().any(|(i, c)| {
-                        i != pos
-                            && match c {
-                                Expr::Cmp(op, ..) => *op != CmpOp::Ne && c.columns().iter().any(|r| r.name == icol),
-                                Expr::Between(x, ..) => x.columns().iter().any(|r| r.name == icol),
-                                _ => false,
-                            }
-                    });
-                }
             }
             false
         }
